@@ -166,3 +166,44 @@ def resolve_idx(idx, lenset):
     if lenset is None or any(n >= 6 for n in lenset):
         return None
     return {n - idx[1] for n in lenset}
+
+
+def walker_of(U):
+    """the full walker W: the crate-local `(&mut self, &Value) -> Result<Value>` function the entry calls; it dispatches on the JSON kind"""
+    fx = U.fx
+    ev = vals(U.entry)
+    for b, t in U.entry.calls():
+        if t.get("resolved_local") and t.get("resolved") in fx.fns:
+            w = fx.fns[t["resolved"]]
+            if w.kind != "closure" and any((w.local_ty(i) or "") == "&serde_json::Value" for i in range(1, w.arg_count + 1)):
+                return w
+    return None
+
+
+def must_walk(fx, W, v, depth=0, _seen=None):
+    """every alternative of v is (the Ok payload of) a call to the full walker W, possibly through crate-local helpers all of whose
+    Ok exits are themselves such calls"""
+    if _seen is None:
+        _seen = set()
+
+    def pred(x):
+        if x.kind != "call":
+            return False
+        r = x.d["term"].get("resolved")
+        if r == W.name:
+            return True
+        if x.d["term"].get("resolved_local") and r in fx.fns and r not in _seen and depth < 3:
+            h = fx.fns[r]
+            if h.kind == "closure":
+                return False
+            hv = vals(h)
+            oks = [e for e in cfg.exit_sites(h) if e["kind"] in ("Ok", "call", "other")]
+            if not oks:
+                return False
+            for e in oks:
+                val = hv._rv(e["rv"], e["bb"], e["idx"]) if "rv" in e else hv.call_node(e["bb"])
+                if not must_walk(fx, W, val, depth + 1, _seen | {r}):
+                    return False
+            return True
+        return False
+    return must(v, pred)
